@@ -484,7 +484,7 @@ func runMain(id, tier string) int {
 			continue
 		}
 		seen[v.Class] = true
-		if c.Minimise != nil && len(seen) <= 3 {
+		if c.Minimise != nil && len(seen) <= 10 {
 			v = c.Minimise(v)
 		}
 		path := filepath.Join(VerifDir, "replays", fmt.Sprintf("%s-%d-%d-%s.json", id, seed, v.Unit, sanitize(v.Class)))
